@@ -56,6 +56,7 @@ func (hs *heightSub) Height() uint64 {
 func (hs *heightSub) SetHeight(height uint64) {
 	for {
 		curr := hs.height.Load()
+		verifPoint(nil, "setHeight.afterLoad", height)
 		if curr >= height {
 			return
 		}
